@@ -28,10 +28,11 @@ class Obligation(object):
 class Path(object):
     def __init__(self):
         self.env = {}; self.pc = []; self.ghost = {}; self.old = {}; self.alias = {}; self.guards = []
+        self.fa = {}          # local name -> (parameter, field) while it is still bound to that field of an unmodified parameter
 
     def clone(self):
         p = Path(); p.env = dict(self.env); p.pc = list(self.pc); p.ghost = dict(self.ghost); p.old = self.old
-        p.alias = dict(self.alias); p.guards = list(self.guards)
+        p.alias = dict(self.alias); p.guards = list(self.guards); p.fa = dict(self.fa)
         return p
 
 
@@ -848,7 +849,16 @@ class Exec(object):
         if isinstance(v, Gen): return self.list_of_gen(p, v)
         if v.t.kind == 'list': return v
         if v.t.kind == 'set':       # some duplicate-free enumeration of the set: every order is covered
-            r = fresh('enum', LIST(v.t.args[0])); y = fresh_z('y', sort_of(v.t.args[0])); i, j = fresh_z('i', z3.IntSort()), fresh_z('j', z3.IntSort())
+            stable = (isinstance(a0, ast.Name) and a0.id in p.alias and p.alias[a0.id][0] not in self.c.modifies) or \
+                     (isinstance(a0, ast.Attribute) and isinstance(a0.value, ast.Name) and a0.value.id in self.c.params and a0.value.id not in self.c.modifies) or \
+                     (isinstance(a0, ast.Name) and a0.id in p.fa)
+            if stable and v.t.args[0] == ATOM:
+                # assumption A-list-order: enumerating the same, unmodified set object of a parameter again (here or in a callee that receives the
+                # same parameter) gives the same order; modelled as a function of the set value
+                r = SV(LIST(ATOM), T.listof(v.z))
+            else:
+                r = fresh('enum', LIST(v.t.args[0]))
+            y = fresh_z('y', sort_of(v.t.args[0])); i, j = fresh_z('i', z3.IntSort()), fresh_z('j', z3.IntSort())
             self.assume(p, list_len(r) == S.card(v).z)
             self.assume(p, ForAll([y], Select(v.z, y) == Exists([i], And(0 <= i, i < list_len(r), Select(list_arr(r), i) == y))))
             self.assume(p, ForAll([i, j], Implies(And(0 <= i, i < j, j < list_len(r)), Select(list_arr(r), i) != Select(list_arr(r), j))))
@@ -1276,6 +1286,11 @@ class Exec(object):
                     and value_expr.value.id in self.c.modifies and v.t.kind in ('set', 'map', 'list'):
                 p.alias[tg.id] = (value_expr.value.id, value_expr.attr); p.env.pop(tg.id, None); return
             p.alias.pop(tg.id, None)
+            if value_expr is not None and isinstance(value_expr, ast.Attribute) and isinstance(value_expr.value, ast.Name) \
+                    and value_expr.value.id in self.c.params and value_expr.value.id not in self.c.modifies and value_expr.value.id not in assigned_names(self.fn.body):
+                p.fa[tg.id] = (value_expr.value.id, value_expr.attr)
+            else:
+                p.fa.pop(tg.id, None)
             p.env[tg.id] = v; return
         if isinstance(tg, (ast.Tuple, ast.List)):
             if v.t.kind != 'tup' or len(v.t.args) != len(tg.elts): raise Unsupported('unpacking %s' % v.t)
